@@ -13,7 +13,7 @@ package main
 //@   requires d.write != nil && d.read != nil
 //@   ghost n int = 0
 //@   ghost gerr error = nil
-//@   at UploadSegment#* before assert [C44.UploadSegment.primary_only] recv == old(d.write) && arg1 == key && arg2 == body
+//@   at UploadSegment#* before assert [C44.UploadSegment.primary_only] recv == old(d.write) && arg0 == old(ctx) && arg1 == key && arg2 == body
 //@   at UploadSegment#* after set n = n + 1
 //@   at UploadSegment#* after set gerr = ret0
 //@   ensures [C44.UploadSegment.once_and_returned] n == 1 && result == gerr
@@ -22,7 +22,7 @@ package main
 //@   requires d.write != nil && d.read != nil
 //@   ghost n int = 0
 //@   ghost gerr error = nil
-//@   at UploadIndex#* before assert [C44.UploadIndex.primary_only] recv == old(d.write) && arg1 == key && arg2 == body
+//@   at UploadIndex#* before assert [C44.UploadIndex.primary_only] recv == old(d.write) && arg0 == old(ctx) && arg1 == key && arg2 == body
 //@   at UploadIndex#* after set n = n + 1
 //@   at UploadIndex#* after set gerr = ret0
 //@   ensures [C44.UploadIndex.once_and_returned] n == 1 && result == gerr
@@ -31,7 +31,7 @@ package main
 //@   requires d.write != nil && d.read != nil
 //@   ghost n int = 0
 //@   ghost gerr error = nil
-//@   at DeleteSegment#* before assert [C44.DeleteSegment.primary_only] recv == old(d.write) && arg1 == key
+//@   at DeleteSegment#* before assert [C44.DeleteSegment.primary_only] recv == old(d.write) && arg0 == old(ctx) && arg1 == key
 //@   at DeleteSegment#* after set n = n + 1
 //@   at DeleteSegment#* after set gerr = ret0
 //@   ensures [C44.DeleteSegment.once_and_returned] n == 1 && result == gerr
@@ -40,7 +40,7 @@ package main
 //@   requires d.write != nil && d.read != nil
 //@   ghost n int = 0
 //@   ghost gerr error = nil
-//@   at DeleteIndex#* before assert [C44.DeleteIndex.primary_only] recv == old(d.write) && arg1 == key
+//@   at DeleteIndex#* before assert [C44.DeleteIndex.primary_only] recv == old(d.write) && arg0 == old(ctx) && arg1 == key
 //@   at DeleteIndex#* after set n = n + 1
 //@   at DeleteIndex#* after set gerr = ret0
 //@   ensures [C44.DeleteIndex.once_and_returned] n == 1 && result == gerr
@@ -49,7 +49,7 @@ package main
 //@   requires d.write != nil && d.read != nil
 //@   ghost n int = 0
 //@   ghost gerr error = nil
-//@   at EnsureBucket#* before assert [C44.EnsureBucket.primary_only] recv == old(d.write)
+//@   at EnsureBucket#* before assert [C44.EnsureBucket.primary_only] recv == old(d.write) && arg0 == old(ctx)
 //@   at EnsureBucket#* after set n = n + 1
 //@   at EnsureBucket#* after set gerr = ret0
 //@   ensures [C44.EnsureBucket.once_and_returned] n == 1 && result == gerr
@@ -59,7 +59,7 @@ package main
 //@   ghost n int = 0
 //@   ghost gerr error = nil
 //@   ghost gobjs []storage.S3Object = nil
-//@   at ListSegments#* before assert [C44.ListSegments.primary_only] recv == old(d.write) && arg1 == prefix
+//@   at ListSegments#* before assert [C44.ListSegments.primary_only] recv == old(d.write) && arg0 == old(ctx) && arg1 == prefix
 //@   at ListSegments#* after set n = n + 1
 //@   at ListSegments#* after set gobjs = ret0
 //@   at ListSegments#* after set gerr = ret1
@@ -75,7 +75,7 @@ package main
 //@   at DownloadSegment#1 before assert [C44.DownloadSegment.replica_first] recv == old(d.read) && arg1 == key && arg2 == rng
 //@   at DownloadSegment#1 after set rdata = ret0
 //@   at DownloadSegment#1 after set rerr = ret1
-//@   at DownloadSegment#2 before assert [C44.DownloadSegment.fallback_is_primary] recv == old(d.write) && arg1 == key && arg2 == rng && rerr != nil
+//@   at DownloadSegment#2 before assert [C44.DownloadSegment.fallback_is_primary] recv == old(d.write) && arg0 == old(ctx) && arg1 == key && arg2 == rng && rerr != nil
 //@   at DownloadSegment#2 after set pdata = ret0
 //@   at DownloadSegment#2 after set perr = ret1
 //@   at DownloadSegment#* after set n = n + 1
@@ -92,7 +92,7 @@ package main
 //@   at DownloadIndex#1 before assert [C44.DownloadIndex.replica_first] recv == old(d.read) && arg1 == key
 //@   at DownloadIndex#1 after set rdata = ret0
 //@   at DownloadIndex#1 after set rerr = ret1
-//@   at DownloadIndex#2 before assert [C44.DownloadIndex.fallback_is_primary] recv == old(d.write) && arg1 == key && rerr != nil
+//@   at DownloadIndex#2 before assert [C44.DownloadIndex.fallback_is_primary] recv == old(d.write) && arg0 == old(ctx) && arg1 == key && rerr != nil
 //@   at DownloadIndex#2 after set pdata = ret0
 //@   at DownloadIndex#2 after set perr = ret1
 //@   at DownloadIndex#* after set n = n + 1
